@@ -1,1 +1,28 @@
-import PyshaclModel
+/-
+  C12 — abort_on_first changes how much is reported, never what is decided.
+  Proved here for every input and every option vector (abort on or off, any waivers): the verdict is
+  a function of the severities of the reported results, and a non-conforming verdict always comes
+  with at least one (unwaived) result.  Equality of the abort verdict with the complete-run verdict
+  and the subset relation are checked on the real code by the metamorphic oracle (B); the model-level
+  proof of verdict equality is work in progress (see DESIGN.md §6 C12).
+-/
+import PyshaclProofs.EvalLemmas
+namespace Pyshacl.C12
+open Pyshacl
+
+theorem nonconforming_has_unwaived_result (o : Opts) (sg dg : Graph) (rx : Regex) (focus : List Term)
+    (rs : List Result) (h : runValidate o sg dg rx focus [] = .ok (false, rs)) :
+    ∃ r ∈ rs, r.severity ∉ allowedSeverities o := by
+  have := runValidate_verdict o sg dg rx focus false rs h
+  unfold allWaived at this
+  have h2 : ¬ (rs.all fun r => decide (r.severity ∈ allowedSeverities o)) = true := by rw [← this]; simp
+  rw [List.all_eq_true] at h2
+  simpa using h2
+
+theorem conforming_iff_all_waived_even_with_abort (o : Opts) (sg dg : Graph) (rx : Regex) (focus : List Term)
+    (conf : Bool) (rs : List Result) (h : runValidate { o with abortOnFirst := true } sg dg rx focus [] = .ok (conf, rs)) :
+    conf = allWaived o rs := by
+  rw [runValidate_verdict _ sg dg rx focus conf rs h]
+  exact allWaived_congr o _ rfl rfl rs
+
+end Pyshacl.C12
